@@ -6,6 +6,7 @@ import Lean.Data.Json
 import Hpv.Basic
 import Hpv.TermId
 import Hpv.Csr
+import Hpv.Matrix
 open Lean
 
 namespace Drv
@@ -52,14 +53,51 @@ def c04sort (j : Json) : Except String Json := do
 
 end C04
 
-/-! ### C17 (raw builder arrays; the full matrix ops are in `c17.hist`) -/
-open Hpv.Csr in
-def c17raw (j : Json) : Except String Json := do
+/-! ### errors -/
+def errName : Hpv.Err → String
+  | .valueError => "ValueError" | .indexError => "IndexError" | .typeError => "TypeError"
+  | .keyError => "KeyError" | .other => "Other"
+
+def exceptJson {α} [ToJson α] : Except Hpv.Err α → Json
+  | .ok v => Json.mkObj [("ok", toJson v)]
+  | .error e => Json.mkObj [("err", errName e)]
+
+/-! ### C17 -/
+section C17
+open Hpv.Csr
+
+def c17read (m : Matrix) (rd : Json) : Except String Json := do
+  let a ← rd.getArr?
+  let k ← (a[0]?.getD Json.null).getStr?
+  let gi (i : Nat) : Except String Int := (a[i]?.getD Json.null).getInt?
+  match k with
+  | "cell" => return exceptJson (m.getCell (← gi 1) (← gi 2))
+  | "row" => return exceptJson (m.getRow (← gi 1))
+  | "cols" => return exceptJson (m.colIndicesOfVal (← gi 1) (← gi 2))
+  | _ => throw s!"unknown read {k}"
+
+def c17hist (j : Json) : Except String Json := do
   let nrows ← j.getObjValAs? Nat "nrows"
-  let ops ← j.getObjValAs? (List (Nat × Nat × Int)) "ops"
-  let b0 : Builder := ⟨List.replicate (nrows + 1) 0, [], []⟩
-  let b := ops.foldl (fun b (r, c, v) => setItem b r c v) b0
-  return Json.mkObj [("row", toJson b.indptr), ("col", toJson b.col), ("data", toJson b.dat)]
+  let ncols ← j.getObjValAs? Nat "ncols"
+  let ops ← j.getObjValAs? (List (Int × Int × Int)) "ops"
+  let reads ← j.getObjValAs? (Array Json) "reads"
+  -- outcome of every assignment (ok / error kind) and the final builder
+  let (b, outs) := ops.foldl (fun (acc : Builder × Array Json) op =>
+      match setItemChecked nrows ncols acc.1 op.1 op.2.1 op.2.2 with
+      | .ok b' => (b', acc.2.push (Json.mkObj [("ok", Json.null)]))
+      | .error e => (acc.1, acc.2.push (Json.mkObj [("err", errName e)]))) (Builder.empty nrows, #[])
+  let m := b.toMatrix nrows ncols
+  let rs ← reads.mapM (c17read m)
+  return Json.mkObj [("sets", Json.arr outs), ("reads", Json.arr rs),
+    ("raw", Json.mkObj [("row", toJson b.indptr), ("col", toJson b.col), ("data", toJson b.dat)])]
+
+def c17csr (j : Json) : Except String Json := do
+  let m : Matrix := ⟨← j.getObjValAs? (List Nat) "indptr", ← j.getObjValAs? (List Nat) "col",
+    ← j.getObjValAs? (List Int) "dat", ← j.getObjValAs? Nat "nrows", ← j.getObjValAs? Nat "ncols"⟩
+  let reads ← j.getObjValAs? (Array Json) "reads"
+  let rs ← reads.mapM (c17read m)
+  return Json.mkObj [("reads", Json.arr rs)]
+end C17
 
 def handle (j : Json) : Except String Json := do
   let op ← j.getObjValAs? String "op"
@@ -67,7 +105,8 @@ def handle (j : Json) : Except String Json := do
   | "c04.parse" => c04parse j
   | "c04.cmp" => c04cmp j
   | "c04.sort" => c04sort j
-  | "c17.raw" => c17raw j
+  | "c17.hist" => c17hist j
+  | "c17.csr" => c17csr j
   | _ => throw s!"unknown op {op}"
 end Drv
 
